@@ -46,6 +46,27 @@ theorem stalled_keeps_first_cap (cap : Nat) (ls : List (PLabel α)) (s : Pipe α
     (s.node c).q = (((s.node (s.node c).parent).out).drop (s.node c).attachedAt).take s.cap :=
   (pinv_pkeep_run _ ls s (pinv_init cap) (pkeep_init cap) h).2 c h1 h2 ho
 
+/-- **a batch is delivered as far as it fits, never all-or-nothing** (subscription_filter.go hands a Refilter's or a
+relist's batch to the consumer event by event, each with a non-blocking send): a buffer that holds the first `cap` of
+what it was offered so far holds, after a whole batch, the first `cap` of everything offered — the head of the batch
+fills whatever room there was -/
+theorem batch_fills_the_room (cap : Nat) (offered batch : List α) :
+    offerAll cap (offered.take cap) batch = (offered ++ batch).take cap := by
+  induction batch generalizing offered with
+  | nil => simp [offerAll]
+  | cons e rest ih =>
+    show offerAll cap (offer cap (offered.take cap) e) rest = _
+    rw [offer_take, ih (offered ++ [e])]
+    simp
+
+/-- … in particular the events of the batch that fit are all there: with `r` free slots the first `r` events of the
+batch are kept -/
+theorem batch_head_kept (cap : Nat) (q batch : List α) (hq : q.length ≤ cap) :
+    offerAll cap q batch = q ++ batch.take (cap - q.length) := by
+  have h := batch_fills_the_room cap q batch
+  rw [List.take_of_length_le hq] at h
+  rw [h, List.take_append, List.take_of_length_le hq]
+
 /-- the same for the controller's own stage: in-order subsequence of what was published -/
 theorem root_subsequence (cap : Nat) (ls : List (PLabel α)) (s : Pipe α) (h : (Pipe.init cap).run ls = some s) :
     ((s.node 0).out ++ (s.node 0).q).Sublist s.published :=
@@ -74,3 +95,5 @@ end KC.C10
 #print axioms KC.C10.stalled_keeps_first_cap
 #print axioms KC.C10.root_subsequence
 #print axioms KC.C10.code_capacity_positive
+#print axioms KC.C10.batch_fills_the_room
+#print axioms KC.C10.batch_head_kept
